@@ -9,7 +9,7 @@ use vh::refs::*;
 use vh::report::*;
 use vzoo::c19::tr::{zoo_api_mod, ZooImpl};
 
-const PROBES: &[&str] = &["0.5.0", "1.0.0", "1.5.0", "2.0.0", "2.1.3", "3.0.0"];
+const PROBES: &[&str] = &["0.5.0", "1.0.0-rc.1", "1.0.0", "1.5.0", "2.0.0-rc.1", "2.0.0", "2.1.3", "3.0.0"];
 
 struct Observed {
     style: &'static str,
